@@ -93,12 +93,63 @@ class Mirror(ast.NodeTransformer):
         return node
 
 
+class AugExpand(ast.NodeTransformer):
+    """x += y -> x = x + y   (every augmented assignment in the tree works on numbers, strings or datetimes)"""
+
+    def visit_AugAssign(self, node):
+        import copy
+
+        load = copy.deepcopy(node.target)
+        for n in ast.walk(load):
+            if hasattr(n, "ctx"):
+                n.ctx = ast.Load()
+        return ast.Assign(targets=[node.target], value=ast.BinOp(left=load, op=node.op, right=node.value), lineno=node.lineno)
+
+
+def _neg(test):
+    if isinstance(test, ast.UnaryOp) and isinstance(test.op, ast.Not):
+        return test.operand
+    return ast.UnaryOp(op=ast.Not(), operand=test)
+
+
+class ElseSwap(ast.NodeTransformer):
+    """if c: A else: B  ->  if not c: B else: A   (two-armed ifs only; elif chains are left alone)"""
+
+    def visit_If(self, node):
+        self.generic_visit(node)
+        if node.orelse and not (len(node.orelse) == 1 and isinstance(node.orelse[0], ast.If)):
+            return ast.If(test=_neg(node.test), body=node.orelse, orelse=node.body)
+        return node
+
+    def visit_IfExp(self, node):
+        self.generic_visit(node)
+        return ast.IfExp(test=_neg(node.test), body=node.orelse, orelse=node.body)
+
+
+class ChainSplit(ast.NodeTransformer):
+    """a < b <= c  ->  a < b and b <= c   (middle operands in this tree are plain attribute reads)"""
+
+    def visit_Compare(self, node):
+        self.generic_visit(node)
+        if len(node.ops) == 2 and isinstance(node.comparators[0], (ast.Name, ast.Attribute)):
+            import copy
+
+            return ast.BoolOp(op=ast.And(), values=[ast.Compare(left=node.left, ops=[node.ops[0]], comparators=[node.comparators[0]]), ast.Compare(left=copy.deepcopy(node.comparators[0]), ops=[node.ops[1]], comparators=[node.comparators[1]])])
+        return node
+
+
 def transform(src, mode):
     tree = ast.parse(src)
     if mode == "rename":
         tree = Renamer(src).run(tree)
     elif mode == "mirror":
         tree = Mirror().visit(tree)
+    elif mode == "augexpand":
+        tree = AugExpand().visit(tree)
+    elif mode == "elseswap":
+        tree = ElseSwap().visit(tree)
+    elif mode == "chainsplit":
+        tree = ChainSplit().visit(tree)
     ast.fix_missing_locations(tree)
     return ast.unparse(tree) + "\n"
 
@@ -139,7 +190,7 @@ def main():
     ap.add_argument("--props", default="")
     ap.add_argument("--per-file", action="store_true")
     a = ap.parse_args()
-    modes = ["rename", "mirror", "reformat"] if a.mode == "all" else a.mode.split(",")
+    modes = ["rename", "mirror", "reformat", "augexpand", "elseswap", "chainsplit"] if a.mode == "all" else a.mode.split(",")
     props = a.props.split(",") if a.props else PROPS
     jobs = []
     for m in modes:
